@@ -422,7 +422,7 @@ func ruleMidBatchFailure(c *Ctx, r *Report, rule string) {
 
 func ruleValidateBounds(c *Ctx, r *Report, rule string) {
 	// R7 Validate bounds transfers
-	r.rule(rule, 2, "Transaction.Validate bounds the transfers by the input")
+	r.rule(rule, 1, "Transaction.Validate bounds the transfers by the input")
 	tv := c.fn("fat2.Transaction.Validate")
 	{
 		hasGuardedSub := false
